@@ -141,7 +141,7 @@ static void ints(uint64_t seed)
                 ints_one<T>(wrapu<T>((u128)a), wrapu<T>((u128)b), hostile<T>(rng, c3), (a + b) % BITS, 14, 14);
     if (sizeof(T) == 2)
     {
-        uint64_t stride = ctx().tier ? 1 : 4099, start = seed % stride;
+        uint64_t stride = sweep_stride(4099), start = seed % stride;
         for (uint64_t p = start; p < (1ull << 32); p += stride)
             ints_one<T>(wrapu<T>((u128)(p >> 16)), wrapu<T>((u128)(p & 0xffff)), hostile<T>(rng, c3), (int)(p % BITS), 14, 14);
     }
